@@ -93,15 +93,17 @@ def gen_system(rng, n=None, ny=None, nper=None, masks="random", unknown_init=Fal
         mask = [[0 if rng.chance(p_miss) else 1 for _ in range(ny)] for _ in range(nper)]
         if rng.chance(0.3) and nper > 1:
             mask[rng.randint(0, nper - 1)] = [0] * ny            # a period without any observation
-        if rng.chance(0.15):
-            for t in range(rng.randint(0, nper - 1), nper):
-                mask[t] = [0] * ny                               # no observations at the end of the sample
+        if rng.chance(0.4 if unknown_init else 0.15):
+            for t in range(rng.randint(1 if unknown_init else 0, max(1, nper - 1)), nper):
+                mask[t] = [0] * ny                               # no observations at the end of the sample (forecast tail)
     else:
         mask = masks
     return {"T": T.tolist(), "P": P.tolist(), "K": K.tolist(), "Z": Z.tolist(), "H": H.tolist(), "D": D.tolist(),
             "a": a.tolist(), "Q": Q.tolist(), "xi": None if xi is None else xi.tolist(),
             "stdu": stdu, "stdw": stdw, "u0": u0, "w0": w0, "y": y, "mask": mask,
-            "rescale": bool(rng.chance(0.3)), "p_none": bool(p_identity and rng.chance(0.5))}
+            "rescale": bool(rng.chance(0.3)), "p_none": bool(p_identity and rng.chance(0.5)),
+            # which output steps are stored must not matter: half of the unknown-init cases run without a prediction store
+            "store_predict": bool(not (unknown_init and rng.chance(0.5)))}
 
 
 def arrays(case):
@@ -162,16 +164,24 @@ def impl_direct(case):
         rec["y2"][t] = np.array(y, dtype=float)
 
     initials = (A["a"].copy(), A["Q"].copy(), None if A["xi"] is None else A["xi"].copy())
+    sp = store_predict if case.get("store_predict", True) else None
     cache = KM.predict(num_periods=nper, initials=initials, partial_generate_period_system=gen_sys,
-                       partial_generate_period_data=gen_data, store_predict=store_predict, store_update=store_update,
+                       partial_generate_period_data=gen_data, store_predict=sp, store_update=store_update,
                        store_smooth=store_smooth)
     rec["delta"] = None
     if cache.needs_estimate_unknown_init:
         KM.estimate_unknown_init(cache=cache)
-        KM.correct_for_unknown_init(cache=cache, store_predict=store_predict)
+        KM.correct_for_unknown_init(cache=cache, store_predict=sp)
         rec["delta"] = np.array(cache.unknown_init_estimate, dtype=float)
     KM.update(cache=cache, store_update=store_update)
     KM.smooth(cache=cache, store_smooth=store_smooth)
+    if sp is None:
+        # nothing was stored for the prediction step: take what the later steps and the likelihood actually use
+        for t in range(nper):
+            rec["a0"][t] = np.array(cache.all_a0[t], dtype=float); rec["y0"][t] = np.array(cache.all_y0[t], dtype=float)
+            rec["Q0"][t] = np.array(cache.all_Q0[t], dtype=float)
+            Fi = np.array(cache.all_Fi[t], dtype=float)
+            rec["F"][t] = np.linalg.inv(Fi) if Fi.size else Fi
     cache.calculate_likelihood(rescale_variance=bool(case.get("rescale")))
     cache.calculate_likelihood_contributions()
     rec["nll"] = float(cache.neg_log_likelihood)
@@ -361,6 +371,8 @@ class Batch:
         return float(resid @ np.linalg.solve(S, resid))
 
     def condS(self):
+        if getattr(self, "unidentified", False):
+            return float("inf")
         if len(self.Y) == 0:
             return 1.0
         return float(np.linalg.cond(self.C @ self.Sig @ self.C.T))
@@ -384,7 +396,7 @@ def r2(rng, lo, hi):
     return round(lo + (hi - lo) * rng.random(), 2)
 
 
-def gen_model(rng, forward=False):
+def gen_model(rng, forward=False, unit_root=False):
     """coefficient arrays of
          (I - A0) x_t = A1 x_{t-1} + A2 x_{t-2} + c + E e_t           (x in logs for log-variables)
          o_t = M0 x_t + M1 x_{t-1} + d + Hw w_t                        (o in logs for log-variables)
@@ -411,6 +423,14 @@ def gen_model(rng, forward=False):
             A2[i] = np.round(A2[i] * f - 0.005 * np.sign(A2[i]), 2)
     if not A1.any():
         A1[0, 0] = 0.5
+    unit = None
+    if unit_root:
+        # one random walk with drift, decoupled from the stationary variables, never lagged elsewhere: its level is the model's
+        # single unit-root component (initial condition = fixed unknown, concentrated out by GLS)
+        unit = rng.randint(0, nx - 1)
+        for M in (A0, A1, A2):
+            M[unit, :] = 0.0; M[:, unit] = 0.0
+        A1[unit, unit] = 1.0
     c = np.array([r2(rng, -1, 1) if rng.chance(0.7) else 0.0 for _ in range(nx)])
     ne = nx if rng.chance(0.7) else rng.randint(1, nx)
     E = np.zeros((nx, ne))
@@ -426,6 +446,10 @@ def gen_model(rng, forward=False):
                 M0[i, j] = r2(rng, -1, 1)
             if rng.chance(0.25):
                 M1[i, j] = r2(rng, -0.5, 0.5)
+    if unit is not None:
+        M1[:, unit] = 0.0
+        if not M0[:, unit].any():
+            M0[rng.randint(0, ny - 1), unit] = 1.0
     d = np.array([r2(rng, -1, 1) if rng.chance(0.6) else 0.0 for _ in range(ny)])
     has_w = [True if rng.chance(0.75) else False for _ in range(ny)]
     if not any(has_w) and ny > ne:
@@ -435,28 +459,42 @@ def gen_model(rng, forward=False):
     for i in range(ny):
         if has_w[i]:
             Hw[i, j] = 1.0; j += 1
-    logx = [bool(rng.chance(0.3)) for _ in range(nx)]
+    logx = [bool(rng.chance(0.3)) and i != unit for i in range(nx)]
     logy = [bool(rng.chance(0.3)) for _ in range(ny)]
     std_e = [rng.choice([0.2, 0.5, 1.0, 1.3]) for _ in range(ne)]
     std_w = [rng.choice([0.1, 0.3, 0.7]) for _ in range(nw)]
-    return {"A0": A0.tolist(), "A1": A1.tolist(), "A2": A2.tolist(), "c": c.tolist(), "E": E.tolist(), "M0": M0.tolist(),
-            "M1": M1.tolist(), "d": d.tolist(), "Hw": Hw.tolist(), "logx": logx, "logy": logy, "std_e": std_e, "std_w": std_w}
+    fwd = None
+    if forward:
+        # one forward-looking variable f = b*f{+1} + g'x + cf, entering some transition and measurement equations
+        fwd = {"b": r2(rng, 0.2, 0.6), "g": [r2(rng, -0.4, 0.4) if rng.chance(0.7) else 0.0 for _ in range(nx)], "cf": r2(rng, -0.5, 0.5),
+               "load": [r2(rng, -0.3, 0.3) if rng.chance(0.6) else 0.0 for _ in range(nx)],
+               "mload": [r2(rng, -0.5, 0.5) if rng.chance(0.5) else 0.0 for _ in range(ny)]}
+        if not any(fwd["g"]): fwd["g"][0] = 0.2
+        if not any(fwd["load"]) and not any(fwd["mload"]): fwd["load"][0] = 0.3
+    return {"fwd": fwd, "A0": A0.tolist(), "A1": A1.tolist(), "A2": A2.tolist(), "c": c.tolist(), "E": E.tolist(), "M0": M0.tolist(),
+            "M1": M1.tolist(), "d": d.tolist(), "Hw": Hw.tolist(), "logx": logx, "logy": logy, "std_e": std_e, "std_w": std_w,
+            "unit": unit}
 
 
 def _term(coef, name, lag, is_log):
     ref = name + (f"{{-{lag}}}" if lag else "")
     if is_log:
         ref = f"log({ref})"
-    return f"{coef!r}*{ref}"
+    return f"{coef if isinstance(coef, str) else repr(coef)}*{ref}"
 
 
-def model_source(mc) -> str:
+def model_source(mc, params=False) -> str:
+    """params=True: the own-lag coefficients A1[i,i] and the constants c[i], d[i] are model parameters pa_i, pc_i, pd_i
+    (so that parameter variants can differ in what enters the first-order solution)"""
     A0, A1, A2, E = (np.array(mc[k]) for k in ("A0", "A1", "A2", "E"))
     M0, M1, Hw = (np.array(mc[k]) for k in ("M0", "M1", "Hw"))
     nx, ne = E.shape; ny, nw = Hw.shape
     xs = [f"x{i}" for i in range(nx)]; es = [f"e{i}" for i in range(ne)]
     os_ = [f"o{i}" for i in range(ny)]; ws = [f"w{i}" for i in range(nw)]
-    L = ["!transition_variables", "    " + ", ".join(xs)]
+    fwd = mc.get("fwd")
+    L = ["!transition_variables", "    " + ", ".join(xs + (["f"] if fwd else []))]
+    if params:
+        L += ["!parameters", "    " + ", ".join([f"pa{i}" for i in range(nx)] + [f"pc{i}" for i in range(nx)] + [f"pd{i}" for i in range(ny)])]
     if any(mc["logx"]):
         L += ["!log_variables", "    " + ", ".join(x for x, l in zip(xs, mc["logx"]) if l)]
     L += ["!transition_shocks", "    " + ", ".join(es)]
@@ -471,12 +509,17 @@ def model_source(mc) -> str:
         terms = []
         for j in range(nx):
             if A0[i, j]: terms.append(_term(float(A0[i, j]), xs[j], 0, mc["logx"][j]))
-            if A1[i, j]: terms.append(_term(float(A1[i, j]), xs[j], 1, mc["logx"][j]))
+            if params and i == j: terms.append(_term(f"pa{i}", xs[j], 1, mc["logx"][j]))
+            elif A1[i, j]: terms.append(_term(float(A1[i, j]), xs[j], 1, mc["logx"][j]))
             if A2[i, j]: terms.append(_term(float(A2[i, j]), xs[j], 2, mc["logx"][j]))
-        terms.append(repr(float(mc["c"][i])))
+        if fwd and fwd["load"][i]: terms.append(f"{float(fwd['load'][i])!r}*f")
+        terms.append(f"pc{i}" if params else repr(float(mc["c"][i])))
         for j in range(ne):
             if E[i, j]: terms.append(f"{float(E[i, j])!r}*{es[j]}")
         L.append(f"    {lhs} = " + " + ".join(terms) + ";")
+    if fwd:
+        terms = [f"{float(fwd['b'])!r}*f{{+1}}"] + [_term(float(fwd["g"][j]), xs[j], 0, mc["logx"][j]) for j in range(nx) if fwd["g"][j]]
+        L.append("    f = " + " + ".join(terms + [repr(float(fwd["cf"]))]) + ";")
     L.append("!measurement_equations")
     for i in range(ny):
         lhs = f"log({os_[i]})" if mc["logy"][i] else os_[i]
@@ -484,7 +527,8 @@ def model_source(mc) -> str:
         for j in range(nx):
             if M0[i, j]: terms.append(_term(float(M0[i, j]), xs[j], 0, mc["logx"][j]))
             if M1[i, j]: terms.append(_term(float(M1[i, j]), xs[j], 1, mc["logx"][j]))
-        terms.append(repr(float(mc["d"][i])))
+        if fwd and fwd["mload"][i]: terms.append(f"{float(fwd['mload'][i])!r}*f")
+        terms.append(f"pd{i}" if params else repr(float(mc["d"][i])))
         for j in range(nw):
             if Hw[i, j]: terms.append(f"{float(Hw[i, j])!r}*{ws[j]}")
         L.append(f"    {lhs} = " + " + ".join(terms) + ";")
@@ -516,6 +560,25 @@ def stationary_moments(T, P, K, std_e):
     return mean, (Q + Q.T) / 2
 
 
+def initial_law(mc):
+    """(mean, cov, xi) of the companion state before the first period: stationary law; with a unit-root variable its level is a
+    fixed unknown (xi = its loading) and the remaining, decoupled block has its own stationary law"""
+    T, P, K, Z, H, D = companion(mc)
+    unit = mc.get("unit")
+    if unit is None:
+        mean, Q = stationary_moments(T, P, K, mc["std_e"])
+        return mean, Q, None
+    n = T.shape[0]; nx = n // 3
+    J = [unit, nx + unit, 2 * nx + unit]
+    O = [i for i in range(n) if i not in J]
+    mean = np.zeros(n); Q = np.zeros((n, n))
+    if O:
+        mo, Qo = stationary_moments(T[np.ix_(O, O)], P[O, :], K[O], mc["std_e"])
+        mean[O] = mo; Q[np.ix_(O, O)] = Qo
+    xi = np.zeros((n, 1)); xi[unit, 0] = 1.0
+    return mean, Q, xi
+
+
 def build_model(mc):
     import irispie as ir
     m = ir.Simultaneous.from_string(model_source(mc), linear=True, flatten=True)
@@ -529,7 +592,9 @@ def build_model(mc):
 def gen_data(rng, mc, nper):
     """simulate observations from the model's own distribution (so that they are of plausible size) + missing mask + stds"""
     T, P, K, Z, H, D = companion(mc)
-    mean, Q = stationary_moments(T, P, K, mc["std_e"])
+    mean, Q, xi = initial_law(mc)
+    if xi is not None:
+        mean = mean + xi[:, 0] * round(-6 + 12 * rng.random(), 1)     # a level away from zero
     ny = Z.shape[0]; ne = P.shape[1]; nw = H.shape[1]
 
     def gauss():
@@ -549,8 +614,14 @@ def gen_data(rng, mc, nper):
     mask = [[0 if rng.chance(p_miss) else 1 for _ in range(ny)] for _ in range(nper)]
     if nper > 2 and rng.chance(0.4):
         mask[rng.randint(0, nper - 1)] = [0] * ny
+    if nper > 3 and rng.chance(0.5 if xi is not None else 0.25):
+        for t in range(nper - rng.randint(1, 3), nper):
+            mask[t] = [0] * ny                                   # forecast tail: no observation at the end of the span
     if not any(any(r) for r in mask):
         mask[0][0] = 1
+    if xi is not None and not any(mask[t][i] for t in range(nper) for i in range(ny) if Z[i, mc["unit"]]):
+        i = [i for i in range(ny) if Z[i, mc["unit"]]][0]
+        mask[0][i] = 1; mask[1][i] = 1                           # the unknown level must be identified
     return {"y": ys, "mask": mask, "std_e_t": std_e_t if tv else None, "std_w_t": std_w_t if tv else None, "nper": nper}
 
 
@@ -584,11 +655,11 @@ def series_values(db, name, span):
 # through Simultaneous.kalman_filter
 # ---------------------------------------------------------------------------------------
 
-def gen_e2e_case(rng, nper_max=10):
-    mc = gen_model(rng)
-    nper = rng.randint(3, nper_max)
+def gen_e2e_case(rng, nper_max=10, unit_root=False):
+    mc = gen_model(rng, unit_root=unit_root)
+    nper = rng.randint(4 if unit_root else 3, nper_max)
     data = gen_data(rng, mc, nper)
-    return {"mc": mc, "data": data, "deviation": bool(rng.chance(0.3)), "rescale": bool(rng.chance(0.3))}
+    return {"mc": mc, "data": data, "deviation": bool(rng.chance(0.3)) and not unit_root, "rescale": bool(rng.chance(0.3))}
 
 
 def e2e_span(nper):
@@ -600,6 +671,8 @@ def e2e_span(nper):
 def steady_logscale(mc):
     """steady state of (x, o) on the log scale for log-variables, from the coefficient arrays alone"""
     T, P, K, Z, H, D = companion(mc)
+    if mc.get("unit") is not None:
+        raise ValueError("no steady state with a unit root")
     sbar = np.linalg.solve(np.eye(T.shape[0]) - T, K)
     nx = len(mc["logx"])
     return sbar[:nx], Z @ sbar + D
@@ -623,7 +696,7 @@ def e2e_batch(case) -> Batch:
     """joint Gaussian of the case from the coefficient arrays alone (companion form, own Lyapunov solve)"""
     mc, data = case["mc"], case["data"]
     T, P, K, Z, H, D = companion(mc)
-    mean, Q = stationary_moments(T, P, K, mc["std_e"])
+    mean, Q, xi = initial_law(mc)
     ybar = Z @ mean + D
     nper = data["nper"]
     se = data["std_e_t"] or [mc["std_e"]] * nper
@@ -632,7 +705,31 @@ def e2e_batch(case) -> Batch:
     if case["deviation"]:
         y = [r - ybar for r in y]
         K = np.zeros_like(K); D = np.zeros_like(D); mean = np.zeros_like(mean)
-    return Batch(T, P, K, Z, H, D, mean, Q, se, sw, [np.zeros(P.shape[1])] * nper, [np.zeros(H.shape[1])] * nper, y, data["mask"])
+    mk = lambda a: Batch(T, P, K, Z, H, D, a, Q, se, sw, [np.zeros(P.shape[1])] * nper, [np.zeros(H.shape[1])] * nper, y, data["mask"])
+    B = mk(mean)
+    if xi is not None:
+        delta = gls_delta(B, xi)
+        if delta is None:
+            B.unidentified = True
+            return B
+        B = mk(mean + xi @ delta)
+        B.delta = delta
+    return B
+
+
+def gls_delta(B: Batch, xi):
+    """GLS estimate of a fixed unknown initial condition a_init + xi*delta on the stacked system (None if not identified)"""
+    if len(B.Y) == 0:
+        return None
+    S = B.C @ B.Sig @ B.C.T
+    M = B.C @ B.A_init.T @ xi
+    if np.linalg.cond(S) > 1e8:
+        return None
+    G = M.T @ np.linalg.solve(S, M)
+    if np.linalg.cond(G) > 1e8:
+        return None
+    resid = B.Y - (B.C @ B.mu + B.c)
+    return np.linalg.solve(G, M.T @ np.linalg.solve(S, resid))
 
 
 def var_key(name, is_log):
@@ -653,7 +750,7 @@ def lean_case_of_e2e(case, m):
     nper = data["nper"]
     se = data["std_e_t"] or [mc["std_e"]] * nper
     sw = data["std_w_t"] or [mc["std_w"]] * nper
-    ybar = steady_logscale(mc)[1]
+    ybar = steady_logscale(mc)[1] if case["deviation"] else None
     ys, masks = [], []
     for t in range(nper):
         row, mrow = [], []
@@ -672,3 +769,132 @@ def lean_case_of_e2e(case, m):
     maps = {"Ua_sel": sol.Ua[list(squid.curr_xi_indexes), :], "x_names": [q2n[q] for q in squid.curr_xi_qids],
             "u_names": u_names, "w_names": w_names, "y_names": y_names}
     return lc, maps
+
+
+# ---------------------------------------------------------------------------------------
+# several parameter variants in one model object
+# ---------------------------------------------------------------------------------------
+
+def gen_variant_case(rng, nper_max=8):
+    """2-3 parameter variants differing in own-lag coefficients, constants and stds (all enter the solution / the filter)"""
+    mc0 = gen_model(rng)
+    nx = len(mc0["logx"]); ny = len(mc0["logy"])
+    mcs = [mc0]
+    for _ in range(rng.randint(1, 2)):
+        mc = json_copy(mc0)
+        room = [0.9 - (sum(abs(v) for v in mc0["A0"][i]) + sum(abs(v) for k, v in enumerate(mc0["A1"][i]) if k != i)
+                       + sum(abs(v) for v in mc0["A2"][i])) for i in range(nx)]
+        for i in range(nx):
+            mc["A1"][i][i] = round((-1 if rng.chance(0.3) else 1) * max(0.0, room[i]) * (0.2 + 0.7 * rng.random()), 2)
+            mc["c"][i] = r2(rng, -1, 1)
+        mc["d"] = [r2(rng, -1, 1) for _ in range(ny)]
+        mc["std_e"] = [rng.choice([0.2, 0.5, 1.0, 1.3]) for _ in mc0["std_e"]]
+        mcs.append(mc)
+    nper = rng.randint(3, nper_max)
+    data = gen_data(rng, mc0, nper)
+    data["std_e_t"] = None; data["std_w_t"] = None
+    return {"mcs": mcs, "data": data}
+
+
+def json_copy(x):
+    import json
+    return json.loads(json.dumps(x))
+
+
+def build_model_variants(mcs):
+    import irispie as ir
+    mc0 = mcs[0]; nv = len(mcs)
+    nx = len(mc0["logx"]); ny = len(mc0["logy"])
+    m = ir.Simultaneous.from_string(model_source(mc0, params=True), linear=True, flatten=True)
+    m.alter_num_variants(nv)
+    vals = {}
+    for i in range(nx):
+        vals[f"pa{i}"] = [float(mc["A1"][i][i]) for mc in mcs]; vals[f"pc{i}"] = [float(mc["c"][i]) for mc in mcs]
+    for i in range(ny):
+        vals[f"pd{i}"] = [float(mc["d"][i]) for mc in mcs]
+    for j in range(len(mc0["std_e"])):
+        vals[f"std_e{j}"] = [float(mc["std_e"][j]) for mc in mcs]
+    for j in range(len(mc0["std_w"])):
+        vals[f"std_w{j}"] = [float(mc["std_w"][j]) for mc in mcs]
+    m.assign(**vals)
+    m.steady()
+    m.solve()
+    return m
+
+
+def run_variants(case, **extra):
+    data = case["data"]
+    m = build_model_variants(case["mcs"])
+    start, span = e2e_span(data["nper"])
+    db = databox_of(case["mcs"][0], data, start)
+    out, info = m.kalman_filter(db, span, return_info=True, **extra)
+    return m, db, span, out, info
+
+
+def slice_databox(dbx, v, nv, span):
+    """single-variant view (column v) over `span` of every series of a multi-variant output databox"""
+    import irispie as ir
+    res = ir.Databox()
+    for name in dbx.keys():
+        try:
+            arr = np.array(dbx[name].get_data(span), dtype=float)
+        except Exception:
+            continue
+        arr = arr.reshape(arr.shape[0], -1)
+        col = arr[:, v] if arr.shape[1] == nv else arr[:, 0]
+        res[name] = ir.Series(start=span.start, values=np.array(col, dtype=float))
+    return res
+
+
+def slice_variant(out, info, v, nv, span):
+    out_v = {k: slice_databox(out[k], v, nv, span) for k in ("predict_med", "predict_std", "update_med", "update_std", "smooth_med", "smooth_std")}
+    return out_v, info[v]
+
+
+# ---------------------------------------------------------------------------------------
+# forward-looking models, shock means (unanticipated, anticipated, measurement) from data, operation sequences on one object
+# ---------------------------------------------------------------------------------------
+
+def gen_sequence_case(rng, nper_max=8):
+    mc = gen_model(rng, forward=bool(rng.chance(0.75)))
+    nper = rng.randint(4, nper_max)
+    data = gen_data(rng, mc, nper)
+    ne = len(mc["std_e"]); nw = len(mc["std_w"])
+    z = lambda n: [[0.0] * n for _ in range(nper)]
+    ue, ae, we = z(ne), z(ne), z(nw)
+    for t in range(nper):
+        for j in range(ne):
+            if rng.chance(0.25): ue[t][j] = r2(rng, -1, 1)
+            if t >= 1 and rng.chance(0.3): ae[t][j] = r2(rng, -1, 1)
+        for j in range(nw):
+            if rng.chance(0.2): we[t][j] = r2(rng, -0.5, 0.5)
+    if not any(any(r) for r in ae):
+        ae[nper - 1][0] = 0.5
+    ops = rng.choice([["filter"], ["simulate", "filter"], ["simulate", "filter"], ["filter", "simulate", "filter"]])
+    return {"mc": mc, "data": data, "deviation": False, "rescale": False, "u_mean": ue, "ant": ae, "w_mean": we, "ops": ops}
+
+
+def run_sequence(case):
+    """the listed operations on ONE solved model object; returns the outputs of the last filter call"""
+    import irispie as ir
+    mc, data = case["mc"], case["data"]
+    m = build_model(mc)
+    start, span = e2e_span(data["nper"])
+    db = databox_of(mc, data, start)
+    nper = data["nper"]
+    for j in range(len(mc["std_e"])):
+        db[f"e{j}"] = ir.Series(start=start, values=np.array([r[j] for r in case["u_mean"]], dtype=float))
+        db[f"ant_e{j}"] = ir.Series(start=start, values=np.array([r[j] for r in case["ant"]], dtype=float))
+    for j in range(len(mc["std_w"])):
+        db[f"w{j}"] = ir.Series(start=start, values=np.array([r[j] for r in case["w_mean"]], dtype=float))
+    res = None
+    for op in case["ops"]:
+        if op == "simulate":
+            sdb = ir.Databox.steady(m, span)
+            for j in range(len(mc["std_e"])):
+                sdb[f"ant_e{j}"] = db[f"ant_e{j}"].copy()
+                sdb[f"e{j}"] = db[f"e{j}"].copy()
+            m.simulate(sdb, span, method="first_order")
+        else:
+            res = m.kalman_filter(db, span, return_info=True, shocks_from_data=True)
+    return m, db, span, res[0], res[1]
